@@ -6,7 +6,10 @@ LEVEL = "model_checking"
 
 MEM_BASE = dict(InitN=3, InitCap=4, MaxOps=2, NDisp=1, NAdmin=2, Classes={1},
                 OpKinds={"add", "delidx", "delkey"}, DeleteInPlace=False, UseMutex=True, TruncateTail=False,
-                CoarseAdmin=False)
+                CoarseAdmin=False, FeKinds=set(), FeBl=0, FeRw=0, FeAgg=0, LoadTwice=False)
+# the whole table: routes (cell by cell) + front end (blacklist, rewriters, aggregators), one configuration value
+FE_ALL = {"bl+", "bl-", "rw+", "rw-", "agg+", "agg-"}
+MEM_WHOLE = dict(MEM_BASE, InitN=2, InitCap=2, NAdmin=1, OpKinds={"add", "delkey"}, FeKinds=FE_ALL, FeBl=1, FeRw=1, FeAgg=1)
 MEM_INV = ["SnapshotImmutable", "Atomic", "NoSkipNoDup", "ViewOK", "ResultsOK", "TypeOK"]
 
 
@@ -16,9 +19,12 @@ def model_check(ctx):
         ctx.note("model checking skipped (VERIF_SKIP_MC)")
         return
     grid = [dict(MEM_BASE),
-            dict(MEM_BASE, Classes={1, 2}, NAdmin=1, OpKinds={"updidx", "updkey", "delidx", "add"})]
+            dict(MEM_BASE, Classes={1, 2}, NAdmin=1, OpKinds={"updidx", "updkey", "delidx", "add"}),
+            dict(MEM_WHOLE, Classes=ctx.pick({1}, {1, 2}), NAdmin=ctx.pick(1, 2))]
     if not q:
-        grid += [dict(MEM_BASE, InitCap=3),                              # full array: the next add reallocates
+        grid += [dict(MEM_WHOLE, MaxOps=3, InitN=1, InitCap=1),
+                 dict(MEM_WHOLE, NDisp=2, FeKinds={"bl+", "rw+", "rw-", "agg+"}),
+                 dict(MEM_BASE, InitCap=3),                              # full array: the next add reallocates
                  dict(MEM_BASE, NDisp=2),
                  dict(MEM_BASE, MaxOps=3, NAdmin=1),
                  dict(MEM_BASE, InitN=4, InitCap=4, NAdmin=1, MaxOps=3),
@@ -57,20 +63,39 @@ def model_check(ctx):
     if r["violated"] != "Atomic" or not re.search(r"dvis = <<<<1, 4, 3>>>>", r["text"]):
         raise Machinery("TruncateTail=TRUE: delete-last, delete-last, add under a held dispatcher is not rejected as Atomic "
                         "with the visit list <<1, 4, 3>> (vacuity); log %s" % r["log"])
-    ctx.cov["model_deviations_rejected"] = ["DeleteInPlace=TRUE -> Atomic, SnapshotImmutable", "UseMutex=FALSE -> ViewOK",
+    # Dispatch loads the configuration a second time for its route loop (front end of one version, routes of a later one):
+    # ONE change in between cannot be told from "wholly before / wholly after"; TWO changes -- the front end first, then the
+    # routes -- give an outcome that no version of the whole table has.  Hence the two-list replay schedules (kind fe).
+    ctx.tlc("TableMem", "TableMem_mc.cfg", consts=dict(MEM_WHOLE, LoadTwice=True, MaxOps=1), invariants=["Atomic", "NoSkipNoDup"],
+            workers=4, count=False, tag="nv_twice_1op")
+    pairs = [({"bl+"}, {"add"}), ({"rw+"}, {"add"}), ({"rw-"}, {"delkey"})]
+    if not q:
+        pairs += [({"agg+"}, {"add"}), ({"agg+"}, {"delkey"}), ({"bl+"}, {"delkey"})]
+    for n, (fk, ok) in enumerate(pairs):
+        r = ctx.tlc("TableMem", "TableMem_mc.cfg", consts=dict(MEM_WHOLE, LoadTwice=True, FeKinds=fk, OpKinds=ok),
+                    invariants=["Atomic"], workers=2, expect_ok=False, count=False, tag="nv_twice_%d" % n)
+        if r["violated"] != "Atomic":
+            raise Machinery("LoadTwice=TRUE with %s then %s does not violate Atomic in the model (vacuity); log %s" % (fk, ok, r["log"]))
+    ctx.cov["model_deviations_rejected"] = ["LoadTwice=TRUE -> Atomic with 2 changes (%s; not with 1 change)" %
+                                            ", ".join("%s then routes %s" % (sorted(a)[0], sorted(b)[0]) for a, b in pairs),"DeleteInPlace=TRUE -> Atomic, SnapshotImmutable", "UseMutex=FALSE -> ViewOK",
                                             "TruncateTail=TRUE -> SnapshotImmutable (2 ops), Atomic (3 ops: delete-last, "
                                             "delete-last, add; not with 2 complete ops)"]
 
 
 def gen_schedules(ctx, kind, **kw):
     c = dict(InitN=3, MaxOps=2, NDisp=1, Classes={1}, AddFilters={0}, UpdFilters={1}, OpKinds={"add", "delidx"},
-             StepWise=True, KeyMod=1000, DelTail=False)
+             StepWise=True, KeyMod=1000, DelTail=False,
+             FeGate=False, RouteGates=True, FeKinds=set(), FeFilters=set(), FeBl=0, FeRw=0, FeAgg=0, FeWindow=False, Mixed=False)
     c.update(kw)
     r = ctx.tlc("TableSched", "TableSched.cfg", consts=c, workers=1, timeout=1200,
                 tag="sched_%s_%d" % (kind, len(ctx.cov["tlc_runs"])))
     out = []
     for s in ctx.tlc_printed(r, "@@S"):
         out.append(dict(kind=kind, init=c["InitN"], steps=json.loads(s)))
+        if kind == "fe":
+            out[-1].update(febl=c["FeBl"], ferw=c["FeRw"], feagg=c["FeAgg"], rgate=c["RouteGates"])
+    if kind == "fe" and not out:
+        raise Machinery("no whole-table schedules generated")
     return out
 
 
@@ -91,11 +116,18 @@ def schedules(ctx):
     S += gen_schedules(ctx, "rroute", OpKinds={"add", "delkey", "updkey"}, InitN=2, Classes={1, 2}, UpdFilters={1},
                        AddFilters={0, 2}, MaxOps=ctx.pick(1, 2))
     S += gen_schedules(ctx, "rroute", OpKinds={"delkey"}, InitN=3, MaxOps=ctx.pick(1, 2))
+    # the WHOLE table: a dispatcher held in the front end (after the configuration load, inside the first aggregator) while a
+    # front-end list AND the route list change, both orders; then released (blacklisted? consumed? name, routes visited)
+    fe = dict(OpKinds={"add", "delkey"}, FeGate=True, FeKinds=FE_ALL, FeFilters={1}, FeBl=1, FeRw=1, FeAgg=1, InitN=2, Mixed=True)
+    S += gen_schedules(ctx, "fe", **dict(fe, Classes={1, 2}, FeWindow=True, RouteGates=False))
+    # ... and held again at every route: two changes anywhere between the load and the last route
+    S += gen_schedules(ctx, "fe", **dict(fe, InitN=ctx.pick(1, 2)))
     # lists without a gate point inside their loop: whole dispatches between operations + white box
     plain = gen_schedules(ctx, "rw", OpKinds={"add", "delidx"}, StepWise=False, MaxOps=ctx.pick(2, 3))
     for k in ("rw", "bl", "agg"):
         S += [dict(x, kind=k) for x in copy.deepcopy(plain)]
     if not q:
+        S += gen_schedules(ctx, "fe", **dict(fe, MaxOps=3, InitN=1, FeWindow=True, Mixed=False))
         S += gen_schedules(ctx, "route", OpKinds={"add", "delkey"}, MaxOps=3)
         S += gen_schedules(ctx, "dest", OpKinds={"add", "delidx"}, NDisp=2, MaxOps=1)
         S += gen_schedules(ctx, "dest", OpKinds={"delidx"}, InitN=4, MaxOps=2)
@@ -230,7 +262,15 @@ def run(ctx):
         ev = b[i]
         kind = b[0].get("kind")
         op = last_op(b, i)
-        if clause == "Atomic":
+        if clause == "Atomic" and kind == "fe":
+            st = max(j for j, e in enumerate(b[:i]) if e["ev"] == "start" and e["d"] == ev.get("d"))
+            chg = [e for e in b[st:i] if e["ev"] == "opbegin"]
+            sig = "atomic-whole-table kind=fe changes=%s" % "+".join("%s.%s" % (e["l"], e["op"]) for e in chg)
+            what = ("dispatch %s (in flight while %s) ended as fate=%s rewriters=%s routes=%s: blacklist, rewriters, aggregators and "
+                    "routes TOGETHER are not those of any one version of the table between its start and its end" %
+                    (ev.get("d"), ", ".join("%s %s %s" % (e["l"], e["op"], {k: e.get(k) for k in "efik" if e.get(k)}) for e in chg),
+                     ev.get("fate"), ev.get("rw") if ev.get("rwobs") else "unobserved", ev.get("vis")))
+        elif clause == "Atomic":
             sig = "atomic kind=%s after=%s" % (kind, op.get("op"))
             what = ("dispatch %s was delivered to entries %s (rewriters %s): not the entry list of any table version "
                     "between its start and its end (last change: %s %s)" % (ev.get("d"), ev.get("vis"), ev.get("rw"),
@@ -312,7 +352,13 @@ def run(ctx):
     cov["operations_judged"] = len(ops)
     cov["refused_operations"] = sum(1 for e in ops if e["err"])
     cov["load_ops_overlapping_a_dispatch"] = overl
-    cov["rule"] = ("replay: every interleaving (TLC, TableSched.tla) of <=2-3 admin operations with the entry-by-entry steps of "
+    cov["whole_table_dispatches_with_two_lists_changed_in_flight"] = whole_table_cov(blocks)
+    cov["rule"] = ("whole table (kind fe): every schedule (TLC) in which one dispatcher is held inside the front end of Dispatch -- "
+                   "after the configuration load, in the first aggregator's AddMaybe (aggregator.NewMocked, mock clock as gate) -- "
+                   "and then at every capture route, while 2 operations change a front-end list (blacklist / rewriter / drop-raw "
+                   "aggregator add, delete) AND the route list (add, delete), both orders; fate, rewritten name and visited routes "
+                   "judged TOGETHER against the versions of the whole table (TableOps.WholeAt); "
+                   "replay: every interleaving (TLC, TableSched.tla) of <=2-3 admin operations with the entry-by-entry steps of "
                    "1-2 held dispatchers over 2-4 entries, per list kind (capture routes, real routes, destinations of a real "
                    "sendAllMatch route; rewriter/blacklist/aggregator lists with whole dispatches), plus every interleaving of 3 add / "
                    "delete-LAST operations with one held dispatcher (routes, destinations); white box after every operation on every "
@@ -333,13 +379,38 @@ def run(ctx):
         "a dispatch that started after operation k returned and ended before operation m was called may have loaded any version k..m-1+1; "
         "filter changes are required to be atomic per entry (each entry accepts/refuses by a filter value it had during the dispatch), "
         "structural changes per list",
-        "blacklist, rewriter and aggregator loops have no point where a dispatcher can be held without a hook: for them atomicity under a "
-        "forced schedule is replaced by the white-box cell comparison (SnapshotImmutable) plus free-running load",
+        "blacklist and rewriter loops have no point where a dispatcher can be held without a hook; the aggregator loop has one (the "
+        "mock clock of an aggregator built with aggregator.NewMocked, called from AddMaybe in the Dispatch goroutine): the dispatcher "
+        "is held at the FIRST aggregator, i.e. after the load, the blacklist and the rewriters and before the other aggregators and "
+        "the routes.  Inside the blacklist / rewriter loops atomicity under a forced schedule is replaced by the white-box cell "
+        "comparison (SnapshotImmutable) plus free-running load",
+        "the fate of a metric (dropped by the blacklist / consumed by a drop-raw aggregator) is read off the table's own Tracef lines "
+        "and cross-checked per history against the table's blacklist counter",
         "destinations point at a closed loopback port; a visit is observed at the Tracef call preceding `dest.In <- buf` (logrus hook "
         "installed by the driver, also the gate) and cross-checked against the destinations' conn_down_no_spool counters",
     ]
-    cov["trusted_base"] = ["TLC", "harness/tbl driver (records only)", "table.VerifRawConfig / route.VerifRawDests accessors (the driver keeps every slice header it saw published and re-reads all of them after every operation)",
+    cov["trusted_base"] = ["TLC", "harness/tbl driver (records only)", "aggregator.NewMocked's clock as the gate inside Dispatch; "
+                           "the 'table dropped ...' Tracef lines of Table.Dispatch as observation of the fate", "table.VerifRawConfig / route.VerifRawDests accessors (the driver keeps every slice header it saw published and re-reads all of them after every operation)",
                            "the Tracef call in route.Dispatch as observation point inside real routes"]
+
+
+def whole_table_cov(blocks):
+    """kind fe: dispatches that were in flight while a front-end list AND the routes changed (measured on the recorded events)"""
+    n = 0
+    for b in blocks:
+        if b[0].get("kind") != "fe":
+            continue
+        open_d = {}
+        for e in b:
+            if e["ev"] == "start":
+                open_d[e["d"]] = set()
+            elif e["ev"] == "opbegin":
+                for v in open_d.values():
+                    v.add("main" if e["l"] == "main" else "fe")
+            elif e["ev"] == "end":
+                if len(open_d.pop(e["d"], ())) == 2:
+                    n += 1
+    return n
 
 
 def selftest(ctx, blocks):
@@ -365,4 +436,26 @@ def selftest(ctx, blocks):
     if not hit or hit[0][1] != "SnapshotImmutable" or hit[0][0] != flat[idx]:
         raise Machinery("binding self-test failed: a changed cell of an old published slice was not rejected as "
                         "SnapshotImmutable at that operation (%s)" % hit[:1])
+    # whole table: the outcome of a Dispatch that loads the configuration twice (front end of the version it started with,
+    # routes of the version current at its end), written into a recorded history in which that is not a version of the table
+    fe = [b for b in blocks if b[0]["kind"] == "fe"]
+    done = False
+    for b in fe:
+        ops = [e for e in b if e["ev"] == "opbegin"]
+        st = next((i for i, e in enumerate(b) if e["ev"] == "start"), None)
+        en = next((i for i, e in enumerate(b) if e["ev"] == "end"), None)
+        if st is None or en is None or [e["l"] + e["op"] for e in b[st:en] if e["ev"] == "opbegin"] != ["bladd", "mainadd"]:
+            continue
+        if b[en]["fate"] != "routed" or ops[-2]["f"] != b[st]["c"]:
+            continue
+        flat = copy.deepcopy(b)
+        flat[en]["vis"] = flat[en]["vis"] + [ops[-1]["e"]]        # ... and the route that only exists together with the blacklist entry
+        hit = []
+        validate(ctx, "selftest3", split(flat), False, lambda bb, i, c: hit.append((bb[i], c)), max_rounds=1)
+        if not hit or hit[0][1] != "Atomic" or hit[0][0] != flat[en]:
+            raise Machinery("binding self-test failed: blacklist of one table version + routes of another was not rejected as Atomic (%s)" % hit[:1])
+        done = True
+        break
+    if not done:
+        raise Machinery("binding self-test: no whole-table history (AddBlacklist, AddRoute under a held dispatcher)")
     ctx.cov["binding_selftests"] = "passed"
